@@ -166,7 +166,113 @@ impl Elig {
     }
 }
 
-fn totality(out: &mut Out, el: &Elig, kind: &str, data: &[u8]) -> (Vec<String>, End) {
+
+// ------------------------------------------------ zonetree::parsed conversion
+//
+// `parsed::Zonefile::try_from(inplace::Zonefile)` is the second entry point of
+// the reader. A conversion that does not stop at the reader's first error can
+// spin while allocating, so it runs in a child process (this binary with
+// `--parsed-child`) under an address-space limit; the parent feeds one input
+// per line and waits for one answer per line.
+
+fn parsed_child_main() {
+    use std::io::{BufRead, Write};
+    std::panic::set_hook(Box::new(|_| {}));
+    let stdin = std::io::stdin();
+    let stdout = std::io::stdout();
+    for line in stdin.lock().lines() {
+        let line = match line { Ok(l) => l, Err(_) => break };
+        let data = unhex(line.trim());
+        let r = catch(move || {
+            let src = Zonefile::from(&data[..]);
+            match domain::zonetree::parsed::Zonefile::try_from(src) {
+                Ok(_) => "OK".to_string(),
+                Err(_) => "ERR".to_string(),
+            }
+        });
+        let ans = match r { Ok(a) => a, Err(m) => format!("PANIC {}", m.replace('\n', " ")) };
+        let mut o = stdout.lock();
+        let _ = writeln!(o, "{}", ans);
+        let _ = o.flush();
+    }
+}
+
+struct ParsedChild {
+    proc_: std::process::Child,
+    stdin: std::process::ChildStdin,
+    rx: std::sync::mpsc::Receiver<String>,
+}
+
+enum Ask { Answer(String), Timeout, Died }
+
+impl ParsedChild {
+    fn spawn() -> Option<ParsedChild> {
+        use std::io::BufRead;
+        let exe = std::env::current_exe().ok()?;
+        let cmd = format!("ulimit -v 4000000 2>/dev/null; exec '{}' --parsed-child", exe.display());
+        let mut p = std::process::Command::new("sh").arg("-c").arg(cmd)
+            .stdin(std::process::Stdio::piped()).stdout(std::process::Stdio::piped())
+            .stderr(std::process::Stdio::null()).spawn().ok()?;
+        let stdin = p.stdin.take()?;
+        let stdout = p.stdout.take()?;
+        let (tx, rx) = std::sync::mpsc::channel();
+        std::thread::spawn(move || {
+            for l in std::io::BufReader::new(stdout).lines() {
+                match l { Ok(l) => { if tx.send(l).is_err() { break; } } Err(_) => break }
+            }
+        });
+        Some(ParsedChild { proc_: p, stdin, rx })
+    }
+    fn ask(&mut self, data: &[u8], secs: u64) -> Ask {
+        use std::io::Write;
+        if writeln!(self.stdin, "{}", hex(data)).is_err() || self.stdin.flush().is_err() { return Ask::Died; }
+        match self.rx.recv_timeout(std::time::Duration::from_secs(secs)) {
+            Ok(a) => Ask::Answer(a),
+            Err(std::sync::mpsc::RecvTimeoutError::Timeout) => Ask::Timeout,
+            Err(std::sync::mpsc::RecvTimeoutError::Disconnected) => Ask::Died,
+        }
+    }
+    fn kill(mut self) { let _ = self.proc_.kill(); let _ = self.proc_.wait(); }
+}
+
+struct ParsedOracle { child: Option<ParsedChild>, skipped: u64 }
+
+impl ParsedOracle {
+    fn new() -> ParsedOracle { ParsedOracle { child: ParsedChild::spawn(), skipped: 0 } }
+    /// One conversion. A missing answer is only reported after a fresh child
+    /// given two minutes fails on the same input as well.
+    fn run(&mut self, out: &mut Out, data: &[u8]) {
+        let c = format!("parsed {}", hex(data));
+        if self.child.is_none() { self.child = ParsedChild::spawn(); }
+        let mut ch = match self.child.take() { Some(c) => c, None => { self.skipped += 1; out.count("parsed_skipped_no_child"); return; } };
+        match ch.ask(data, 10) {
+            Ask::Answer(a) => { self.child = Some(ch); self.verdict(out, &c, &a); }
+            first => {
+                ch.kill();
+                let mut ch2 = match ParsedChild::spawn() { Some(c) => c, None => { self.skipped += 1; out.count("parsed_skipped_no_child"); return; } };
+                match ch2.ask(data, 120) {
+                    Ask::Answer(a) => { self.child = Some(ch2); self.verdict(out, &c, &a); }
+                    Ask::Timeout => { ch2.kill(); out.check(false, "parsed_zonefile_hang", &c, "no answer within 10 s and, in a fresh process, within 120 s"); }
+                    Ask::Died => {
+                        ch2.kill();
+                        let what = if matches!(first, Ask::Timeout) { "no answer within 10 s, then the fresh process died" } else { "the process died twice on this input (abort, stack overflow or the 4 GB address space limit)" };
+                        out.check(false, "parsed_zonefile_crash", &c, what);
+                    }
+                }
+            }
+        }
+    }
+    fn verdict(&mut self, out: &mut Out, c: &str, a: &str) {
+        if let Some(m) = a.strip_prefix("PANIC ") {
+            let class = if m.contains("token not completely read") { "parsed_zonefile_reads_on_after_error" } else { "panic_parsed_zonefile" };
+            out.check(false, class, c, m);
+        } else {
+            out.check(a == "OK" || a == "ERR", "parsed_zonefile_bad_answer", c, a);
+        }
+    }
+}
+
+fn totality(out: &mut Out, el: &Elig, po: &mut ParsedOracle, kind: &str, data: &[u8]) -> (Vec<String>, End) {
     let c = format!("read {}", hex(data));
     out.begin(&c);
     let (v, e, pos) = read_all(data);
@@ -179,6 +285,7 @@ fn totality(out: &mut Out, el: &Elig, kind: &str, data: &[u8]) -> (Vec<String>, 
         End::Err(_) => out.check(pos, "error_without_position", &c, ""),
         End::Eof => out.check(true, "panic_reader", &c, ""),
     }
+    if !matches!(e, End::Hang) { po.run(out, data); }
     (v, e)
 }
 
@@ -355,10 +462,15 @@ fn render(items: &[Item], l: &Layout, r: &mut Rng) -> Vec<u8> {
             Item::Include(path, org) => {
                 o.extend_from_slice(b"$INCLUDE");
                 sep(&mut o, l, r, false);
-                // the path: plain printable text, blanks written as `\ ` or inside quotes
+                // the path: text; inside quotes only `"` and `\` need a backslash, outside
+                // also blanks, `;`, `(` and `)`. With quote_include the quoted form is used and
+                // further printable non-digit characters are escaped at random (quoted AND escaped).
                 if l.quote_include { o.push(b'"'); }
                 for &b in path.iter() {
-                    if !l.quote_include && matches!(b, b' ' | b';' | b'(' | b')') { o.push(b'\\'); }
+                    let must = if l.quote_include { matches!(b, b'"' | b'\\') }
+                               else { matches!(b, b' ' | b'\t' | b';' | b'(' | b')' | b'"' | b'\\') };
+                    let may = l.quote_include && (0x21..0x7F).contains(&b) && !b.is_ascii_digit() && r.chance(1, 6);
+                    if must || may { o.push(b'\\'); }
                     o.push(b);
                 }
                 if l.quote_include { o.push(b'"'); }
@@ -513,9 +625,16 @@ fn gen_zone_of(r: &mut Rng, model_types: bool) -> Vec<Item> {
     for _ in 0..nrec {
         if r.chance(1, 8) { origin = gen_name(r, &origin, true); items.push(Item::Origin(origin.clone())); }
         if r.chance(1, 10) { items.push(Item::Ttl(*r.pick(&[0u32, 60, 300, 3600, 7200]))); }
-        if !model_types && r.chance(1, 8) {
+        if r.chance(1, 6) {
             let n = 1 + r.below(8) as usize;
-            let path: Vec<u8> = (0..n).map(|_| *r.pick(b"abcxyz019./-_ ;(")).collect();
+            let mut path: Vec<u8> = Vec::new();
+            for _ in 0..n {
+                match r.below(12) {
+                    0 => path.push(b'\\'), 1 => path.push(b'"'), 2 => path.extend_from_slice("\u{e9}".as_bytes()),
+                    3 => path.extend_from_slice("\u{20ac}".as_bytes()), 4 => path.push(b' '),
+                    _ => path.push(*r.pick(b"abcxyz019./-_:;(@$")),
+                }
+            }
             let org = if r.chance(1, 2) { Some(gen_name(r, &origin, true)) } else { None };
             items.push(Item::Include(path, org));
         }
@@ -586,6 +705,7 @@ fn all_mnemonics() -> Vec<String> {
 
 fn main() {
     let a = args();
+    if a.extra.iter().any(|x| x == "--parsed-child") { parsed_child_main(); return; }
     // the global watchdog only guards against the harness itself getting stuck;
     // per-read hangs are detected (and survived) by read_all
     let mut out = Out::new(&a, "C07", 300);
@@ -608,6 +728,13 @@ fn main() {
         b"$ORIGIN x.\n@ 1 IN NS @\n\"@\" NS a\n", b"$INCLUDE \"f i\" x.\n$INCLUDE g\n",
         // scan_string keeps the closing quote of an unescaped quoted string
         b"a..b. 1 IN A 1.2.3.4\n", b"a.. 1 IN A 1.2.3.4\n", b".. 1 IN A 1.2.3.4\n", b"a. 1 IN NS b..c.\n", b"a. 1 IN NS b.\\..c.\n", b"a. 1 IN NS \"b..\"\n",
+        // errors in the middle of a token / raised by next_item itself (what a caller that went on after an error would trip over)
+        b"$ORIGIN e.\n@ 1 IN SOA n h 1 1 1 1 1\nw 1 IN TXT \"v \\3x0 -all\"\nf 1 IN A 192.0.2.3\n",
+        b"$ORIGIN e.\n@ 1 IN SOA n h 1 1 1 1 1\nw 1 IN MX 1O m\nf 1 IN A 192.0.2.3\n",
+        b"$ORIGIN e.\n@ 1 IN SOA n h 1 1 1 1 1\nw 1 IN A 192.0.2.1 )\nf 1 IN A 192.0.2.3\n",
+        // quoted strings with escapes through scan_string
+        b"$INCLUDE \"C:\\\\zones\\\\my zone.db\" sub.\n", b"$INCLUDE C:\\\\zones\\\\my\\ zone.db sub.\n", b"\"$TT\\L\" 300\n",
+        b"$INCLUDE \"\\\"old\\\" zones.db\"\n", b"$INCLUDE \"a\\bc\" x.\n", b"$INCLUDE \"\\a\"\n", b"$INCLUDE \"ab\\\"\"\n", b"$INCLUDE \"\xC3\xA9\\ \xE2\x82\xAC\"\n", b"$INCLUDE \xC3\xA9\\065\n",
         b"$INCLUDE \"f\"x.\n", b"$INCLUDE \"f\"\n", b"$INCLUDE \"f\\ i\"x.\n", b"\"$TTL\" 5\n", b"$INCLUDE f\\ i x.\n",
         b"( a. 1 IN A 1.2.3.4 )\n", b"a. 1 IN A ( 1.2.3.4\n", b"a. 1 IN A 1.2.3.4 )\n",
         b"a. 1 IN TXT \"a\nb\"\n", b"a. 1 IN TXT \"abc", b"a. 1 IN TXT a\\", b"a. 1 IN TXT a\\0", b"@", b"$", b"\\#",
@@ -627,7 +754,8 @@ fn main() {
         b"a. 7 IN A 1.2.3.4\n A 1.2.3.5\nb. CH A 1.2.3.4\n",
     ];
     let el = Elig::new();
-    for c in &corpus { totality(&mut out, &el, "corpus", c); }
+    let mut po = ParsedOracle::new();
+    for c in &corpus { totality(&mut out, &el, &mut po, "corpus", c); }
 
     // ---- (a) totality fuzz
     let mnem = all_mnemonics();
@@ -652,7 +780,7 @@ fn main() {
                 d
             }
         };
-        totality(&mut out, &el, match i % 6 { 0 => "random", 1 | 2 => "alphabet", 3 => "type_tail", _ => "mutated_zone" }, &data);
+        totality(&mut out, &el, &mut po, match i % 6 { 0 => "random", 1 | 2 => "alphabet", 3 => "type_tail", _ => "mutated_zone" }, &data);
     }
 
     // ---- (c) T2 stream: zones over the record types the model covers, any
@@ -662,7 +790,7 @@ fn main() {
         let l = layout_of(r.below(17) as usize);
         let mut d = render(&z, &l, &mut r);
         match i % 4 { 0 => {} 1 | 2 => { let p = r.below(d.len() as u64 + 1) as usize; if p < d.len() { d[p] = alpha_byte(&mut r); } } _ => mutate(&mut r, &mut d) }
-        totality(&mut out, &el, "model_zone", &d);
+        totality(&mut out, &el, &mut po, "model_zone", &d);
     }
 
     // ---- RFC 3597 generic record data for the modelled types
@@ -683,7 +811,7 @@ fn main() {
         }
         if r.chance(1, 8) { mutate(&mut r, &mut d); }
         d.push(b'\n');
-        totality(&mut out, &el, "generic_rdata", &d);
+        totality(&mut out, &el, &mut po, "generic_rdata", &d);
     }
 
     // ---- (b) metamorphic
@@ -711,5 +839,7 @@ fn main() {
             out.check(v1 == v0 && e1 == e0, &class, &c, &format!("{} <> {}", obs(&v1, &e1), obs(&v0, &e0)));
         }
     }
-    out.finish(&[]);
+    let skipped = po.skipped;
+    if let Some(c) = po.child.take() { c.kill(); }
+    out.finish(&[("parsed_skipped", format!("{}", skipped))]);
 }
